@@ -247,10 +247,33 @@ def directed_cases(tier):
         # in vain, when it read ahead) and an EARLIER one
         steps = []
         for j, (st0, ln, mode) in enumerate(((b + 700, 250, "first"), (b + 1000, 300, "later"), (b - 2000, 150, "earlier"), (b + 2500, 40, "later"))):
-            steps += [{"s": "open", "dir": 0, "start": st0, "salt": 3000 + j, "uuid": "keep%d" % (j + 1), "mode": mode},
+            steps += [{"s": "open", "dir": 0, "start": st0, "salt": 3000 + j, "uuid": "sess7%d" % (j + 1), "mode": mode},
                       {"s": "write", "op": {"op": "w", "idx": 0, "len": ln, "cid": j}, "expect": "ok"}, {"s": "read"}, {"s": "close"}, {"s": "read"}]
         out.append({"cfg": cfg, "ndirs": 1, "steps": steps, "env": {"pad": 0, "cwd": None, "keep_reader": True, "repeat": 1}})
+        # a later session starts before the recorded data and runs into it: refused (also when repeated), then continues in a
+        # free period - in each environment that must not matter: long channel paths, current directory inside the channel,
+        # relative path spellings, finalized files that have become symbolic links, many repetitions with few descriptors
+        for env, link in (({"pad": 0}, False), ({"pad": 300}, False), ({"pad": 600}, False), ({"cwd": "chan"}, False), ({"cwd": "rel-dot"}, False),
+                          ({"cwd": "top", "keep_reader": True}, False), ({"repeat": 40, "keep_reader": True}, False), ({"pad": 150}, True)):
+            steps = [{"s": "open", "dir": 0, "start": b + 1000, "salt": 4001, "uuid": "sess81", "mode": "first"},
+                     {"s": "write", "op": {"op": "w", "idx": 0, "len": 150, "cid": 0}, "expect": "ok"}, {"s": "close"}, {"s": "read"}]
+            if link:
+                steps.append({"s": "linkify", "dir": 0})
+            steps += [{"s": "open", "dir": 0, "start": b + 900, "salt": 4002, "uuid": "sess82", "mode": "earlier"},
+                      {"s": "write", "op": {"op": "w", "idx": 0, "len": 50, "cid": 1}, "expect": "ok"},
+                      {"s": "write", "op": {"op": "w", "idx": 100, "len": 20, "cid": 2}, "expect": "refused", "prefix": 0},
+                      {"s": "write", "op": {"op": "w", "idx": 100, "len": 20, "cid": 3}, "expect": "refused", "prefix": 0, "retry": True},
+                      {"s": "read"},
+                      {"s": "write", "op": {"op": "w", "idx": 600, "len": 30, "cid": 4}, "expect": "ok"}, {"s": "close"}, {"s": "read"}]
+            e = {"pad": 0, "cwd": None, "keep_reader": False, "repeat": 1}
+            e.update(env)
+            out.append({"cfg": cfg, "ndirs": 1, "steps": steps, "env": e})
     return out
+
+
+def directed_sessions(tier):
+    """The directed session histories, for the checks that judge them with their own clauses (second stage)."""
+    return [dict(c, kind="sessions") for c in directed_cases(tier)]
 
 
 # ------------------------------------------------------------------ reuse by other checks (their "second stage")
